@@ -28,6 +28,7 @@ use datafusion_common::Result;
 use datafusion_common::types::logical_float64;
 use datafusion_expr::GroupsAccumulator;
 use datafusion_expr::function::StateFieldsArgs;
+use datafusion_expr::utils::AggregateOrderSensitivity;
 use datafusion_expr::{
     Accumulator, AggregateUDFImpl, Coercion, Documentation, Signature, TypeSignature,
     TypeSignatureClass, Volatility, function::AccumulatorArgs,
@@ -103,6 +104,12 @@ impl Median {
 }
 
 impl AggregateUDFImpl for Median {
+    fn order_sensitivity(&self) -> AggregateOrderSensitivity {
+        // The result does not depend on the input order: never request the ORDER BY
+        // columns as extra arguments or a sort
+        AggregateOrderSensitivity::Insensitive
+    }
+
     fn name(&self) -> &str {
         "median"
     }
